@@ -68,19 +68,23 @@ theorem gen_loadFilter_prog (U : Unsupported) (filter : Filter) (p : Prog) (hp :
       not_true_eq_false, if_false]
     generalize Gen.seccomp U 1 filter.flag (mkFprog (PolicyOutcome.prog p)) (sysPrctl 38 1 0 0 0 (lockOSThread w)).2.2 = r
     obtain ⟨err, w2⟩ := r
-    simp only
+    -- case analysis on the error value rather than on the shape of the `if` tree, so that an
+    -- equivalent arrangement of the same tests in the source proves the same way
     by_cases he : err = GoErr.nil
-    · simp [he]
-    · simp only [he, not_false_eq_true, if_true]
-      split <;> rfl
+    · subst he; simp
+    · by_cases h38 : err = GoErr.errno 38
+      · subst h38; simp
+      · simp [he, h38]
   · simp only [hn, Bool.false_eq_true, if_false]
     generalize Gen.seccomp U 1 filter.flag (mkFprog (PolicyOutcome.prog p)) w = r
     obtain ⟨err, w2⟩ := r
-    simp only
+    -- case analysis on the error value rather than on the shape of the `if` tree, so that an
+    -- equivalent arrangement of the same tests in the source proves the same way
     by_cases he : err = GoErr.nil
-    · simp [he]
-    · simp only [he, not_false_eq_true, if_true]
-      split <;> rfl
+    · subst he; simp
+    · by_cases h38 : err = GoErr.errno 38
+      · subst h38; simp
+      · simp [he, h38]
 
 /-- a policy that does not assemble or encode: an error, and the world is untouched -/
 theorem gen_loadFilter_noprog (U : Unsupported) (filter : Filter) (hp : ∀ p, filter.policy ≠ .prog p) (w : World) :
@@ -210,19 +214,23 @@ theorem gen_loadFilter_prog' (U : Unsupported) (filter : Filter) (p : Prog) (hp 
       not_true_eq_false, if_false]
     generalize Gen.seccomp U 1 filter.flag (mkFprog (PolicyOutcome.prog p)) (sysPrctl 38 1 0 0 0 (lockOSThread w)).2.2 = r
     obtain ⟨err, w2⟩ := r
-    simp only
+    -- case analysis on the error value rather than on the shape of the `if` tree, so that an
+    -- equivalent arrangement of the same tests in the source proves the same way
     by_cases he : err = GoErr.nil
-    · simp [he]
-    · simp only [he, not_false_eq_true, if_true]
-      split <;> rfl
+    · subst he; simp
+    · by_cases h38 : err = GoErr.errno 38
+      · subst h38; simp
+      · simp [he, h38]
   · simp only [hn, Bool.false_eq_true, if_false]
     generalize Gen.seccomp U 1 filter.flag (mkFprog (PolicyOutcome.prog p)) w = r
     obtain ⟨err, w2⟩ := r
-    simp only
+    -- case analysis on the error value rather than on the shape of the `if` tree, so that an
+    -- equivalent arrangement of the same tests in the source proves the same way
     by_cases he : err = GoErr.nil
-    · simp [he]
-    · simp only [he, not_false_eq_true, if_true]
-      split <;> rfl
+    · subst he; simp
+    · by_cases h38 : err = GoErr.errno 38
+      · subst h38; simp
+      · simp [he, h38]
 
 /-! ## the regenerated loader agrees with the hand-written specification -/
 
@@ -230,19 +238,18 @@ theorem gen_seccomp_cls (U : Unsupported) (flags : Nat) (uargs : Option Prog) (w
     (Gen.seccomp U 1 flags uargs w).1.cls =
       (let r := sysSeccomp 1 flags uargs w
        if r.2.1 ≠ 0 then ErrClass.errno r.2.1 else if r.1 ≠ 0 then .other else .nil) := by
+  rw [(gen_seccomp_core U 1 flags uargs w).2.2.1]
   have hk := sysSeccomp_filter flags uargs w
-  unfold Gen.seccomp
   generalize sysSeccomp 1 flags uargs w = r at hk
   cases hk with
-  | declined e he _ => simp [he, GoErr.cls]
+  | declined e he _ => simp [he]
   | refused t hts _ _ =>
     have hts1 : flags &&& 1 ≠ 0 := hts
-    have : (flags &&& 1 ≠ 0 ∧ t + 1 ≠ 0) := ⟨hts1, Nat.succ_ne_zero t⟩
     simp only [ne_eq, not_true_eq_false, if_false]
-    rw [if_pos this]
-    simp [GoErr.cls]
-  | attachedOne p _ _ _ _ _ => simp [GoErr.cls]
-  | attachedAll p _ _ _ _ _ _ => simp [GoErr.cls]
+    rw [if_pos ⟨hts1, Nat.succ_ne_zero t⟩]
+    simp
+  | attachedOne p _ _ _ _ _ => simp
+  | attachedAll p _ _ _ _ _ _ => simp
 
 /-- **Translator tie, loader.**  For every filter, world, schedule and every behaviour `U` of
     untranslated statements: the regenerated `LoadFilter` leaves the same world behind as the
@@ -300,9 +307,7 @@ theorem gen_loadFilter_eq_spec (U : Unsupported) (filter : Filter) (w : World) :
 
 theorem gen_supported_eq_spec (U : Unsupported) (w : World) :
     Gen.supported U w = LoaderSpec.supported w := by
-  unfold Gen.supported LoaderSpec.supported
-  rw [show Gen.seccomp U 0 1 none w = ((Gen.seccomp U 0 1 none w).1, (Gen.seccomp U 0 1 none w).2) from rfl,
-    gen_seccomp_world]
-  unfold Gen.seccomp sysSeccomp
-  cases ha : (schedStep w).seccompAvailable <;>
-    simp [SECCOMP_SET_MODE_STRICT, EINVAL, ENOSYS, ha]
+  rw [gen_supported_char]
+  unfold LoaderSpec.supported
+  rw [show sysSeccomp SECCOMP_SET_MODE_STRICT 1 none w = sysSeccomp 0 1 none w from rfl, sysSeccomp_probe]
+  cases w.seccompAvailable <;> simp [EINVAL, ENOSYS]
